@@ -108,7 +108,7 @@ pub fn run(case: &Value, _seed: u64) -> Outcome {
             rt(&mut o, ty, &v, |v| v.to_string(), &feats) }
         "Vcs" => { use debian_control::vcs::Vcs;
             let url = URLS[f[1] - 1].to_string(); let b = if f[2] == 0 { None } else { Some(BR[f[2] - 1].to_string()) }; let sp = if f[3] == 0 { None } else { Some(SP[f[3] - 1].to_string()) };
-            let v = match f[0] { 1 => Vcs::Git { repo_url: url, branch: b, subpath: sp }, 2 => Vcs::Bzr { repo_url: url, subpath: sp }, 3 => Vcs::Hg { repo_url: url }, 4 => Vcs::Svn { url }, _ => Vcs::Cvs { root: ":pserver:anon@cvs.example:/cvs".into(), module: sp } };
+            let v = match f[0] { 1 => Vcs::Git { repo_url: url, branch: b, subpath: sp }, 2 => Vcs::Bzr { repo_url: url, subpath: sp }, 3 => Vcs::Hg { repo_url: url }, 4 => Vcs::Svn { url }, _ => Vcs::Cvs { root: ":pserver:anon@cvs.example:/cvs".into(), module: if f[3] == 4 { Some("proj proj-doc".to_string()) } else { sp } } };   // (a CVS module may be several words)
             o.evals += 1;
             let r = guarded("Vcs::to_field/from_field", || { let (n, t) = v.to_field(); let n = n.to_string(); (n.clone(), t.clone(), Vcs::from_field(&n, &t)) });
             match r {
